@@ -70,6 +70,7 @@ package p2c
 //@   let n = len(p.conns)
 //@   let ia = ret(Intn, 0, 1)
 //@   let ib = ite(ret(Intn, 0, 2) >= ia, ret(Intn, 0, 2) + 1, ret(Intn, 0, 2))
+//@   loop 1 entry [starts-at-zero] i == 0
 //@   loop 1 invariant 0 <= i && i <= 3 && (i == 0 || node1 != nil && node2 != nil)
 //@   loop 1 iteration-ensures [resamples-two-different] calls(Intn) == 2 && arg(Intn, 1, 1) == n && arg(Intn, 1, 2) == n - 1 && ia != ib && node1 == p.conns[ia] && node2 == p.conns[ib] && i == at_head(i) + 1
 //@   loop 1 iteration-ensures [resamples-only-when-one-is-unhealthy] !(node1.success > 500 && node2.success > 500)
